@@ -10,6 +10,7 @@ import (
 	"context"
 	"fmt"
 	"sort"
+	"strconv"
 	"strings"
 
 	"github.com/risor-io/risor/object"
@@ -82,6 +83,20 @@ func (s scen) argsSource() string {
 		// every wait() on a failed thread raises its error: also after another waiter has caught it, whichever
 		// way that waiter called wait (the method value handed to try, or a call inside a function)
 		return "func boom(a, b) { return [a][b] }\n" + start("boom", "1, 5", "t") + "r1 := try(t.wait, func(e) { return \"caught1\" })\nr2 := try(func() { return t.wait() }, func(e) { return \"caught2\" })\nr3 := try(t.wait, func(e) { return \"caught3\" })\ngot(\"w\", [r1, r2, r3])\n\"done\"\n"
+	case "wide-253", "wide-254", "wide-255":
+		// a named function with as many parameters as the compiler takes (255) and one or two fewer, started by each
+		// spawn form: the thread's result is built from the first, a middle and the last argument
+		n, _ := strconv.Atoi(strings.TrimPrefix(s.Args, "wide-"))
+		var ps, as []string
+		for i := 0; i < n; i++ {
+			ps = append(ps, fmt.Sprintf("p%d", i))
+			as = append(as, fmt.Sprint(1000+i))
+		}
+		def := "func wide(" + strings.Join(ps, ", ") + ") { return [p0, p" + fmt.Sprint(n/2) + ", p" + fmt.Sprint(n-1) + "] }\n"
+		if s.Spawn == "go" {
+			return def + "t := chan(1)\ngo func(c) { c <- (wide(" + strings.Join(as, ", ") + ")) }(t)\ngot(\"w\", <-t)\n\"done\"\n"
+		}
+		return def + "t := wide.spawn(" + strings.Join(as, ", ") + ")\ngot(\"w\", t.wait())\n\"done\"\n"
 	case "closure-factory":
 		// two closures made by one function literal, each over its own variable, each started by the same spawn
 		// form: every thread runs the closure it was started on (what is remembered per function literal is
@@ -221,6 +236,9 @@ func (s scen) judge(x *dsched.Exec, st *state) (violation, key string) {
 			"nested-spawn":     `"n":7 "w":14`,
 			"nested-go":        `"w":5 "n":[1, 2]`,
 			"closure-factory":  `"w":11 "w":[22, 33]`,
+			"wide-253":         `"w":[1000, 1126, 1252]`,
+			"wide-254":         `"w":[1000, 1127, 1253]`,
+			"wide-255":         `"w":[1000, 1127, 1254]`,
 			"panic-frames":     `"w":["caught1", "caught2"]`,
 			"panic-operands":   `"w":["caught1", "caught2"]`,
 			"panic-builtin":    `"w":["caught1", "caught2"]`,
@@ -333,6 +351,9 @@ func scenarios(thorough bool) []scen {
 	out = append(out, scen{Spawn: "spawn", Args: "error-wait-twice"}, scen{Spawn: "fnspawn", Args: "error-wait-twice"})
 	for _, sp := range spawns {
 		out = append(out, scen{Spawn: sp, Args: "closure-factory"})
+	}
+	for _, w := range []string{"wide-253", "wide-254", "wide-255"} {
+		out = append(out, scen{Spawn: "fnspawn", Args: w}, scen{Spawn: "go", Args: w})
 	}
 	out = append(out, scen{Spawn: "spawn", Args: "panic-frames"}, scen{Spawn: "fnspawn", Args: "panic-frames"}, scen{Spawn: "spawn", Args: "panic-operands"},
 		scen{Spawn: "fnspawn", Args: "panic-operands"}, scen{Spawn: "spawn", Args: "panic-builtin"})
